@@ -115,6 +115,10 @@ FIXED_PROGRAMS: List[Program] = [
     (Eq(Var('Y'), Bin('+', Var('X'), Num('1'))), Eq(Var('Y'), Bin('+', Var('X'), Num('1')))),
     # soft keywords and the bare underscore are ordinary identifiers (seeded change C01_r2mut2)
     (Eq(Var('Y'), Bin('+', Var('match', off=-1), Var('type'))), Eq(Var('case'), Bin('*', Var('_'), Num('2')))),
+    # a name and the same name with a leading underscore are two variables (the storage slot of N is `_N`: code that looks
+    # `_N` up as an attribute finds N's data -- seeded change C20_r5mut1)
+    (Eq(Var('Y'), Bin('+', Var('_N', off=-1), Var('N'))), Eq(Var('_N'), Bin('*', Var('X'), Num('2')))),
+    (Eq(Var('_a'), Bin('+', Var('a', off=-1), Var('X'))), Eq(Var('a'), Bin('-', Var('_a'), Var('Z', off=1)))),
     # long right-hand side
     (Eq(Var('S'), Bin('+', Bin('+', Bin('+', Var('a'), Var('b', off=-1)), Bin('*', Var('c', off=2), Var('k', 'p'))),
                       Bin('/', Var('d'), Bin('-', Var('f', off=-4), Num('3'))))),),
